@@ -185,7 +185,7 @@ def build_db(path, spec):
         oc, dc = aps[o - 1][0], aps[d - 1][0]
         fid += 1
         dist = rng.choice([100.0, 500.0, 500.0, 1000.0, 2500.5, 8000.0, float(rng.randint(50, 12000))])
-        seats = rng.choice([50, 100, 150, 150, 189, 300, rng.randint(10, 500)])
+        seats = rng.choice([0, 50, 100, 150, 150, 189, 300, rng.randint(10, 500)])   # 0 = all-cargo
         cur.execute(
             'INSERT INTO flights (id, carrier, flight_number, origin, destination, day_of_week_mask, departure_time, '
             'arrival_time, arrival_day_offset, service_type, aircraft_type, engine_type, distance, seat_capacity, '
@@ -585,13 +585,13 @@ def gen_filter_params(rng, model_airports, shipped):
         return v[0] if k == 1 and rng.random() < 0.5 else v
 
     if rng.random() < 0.3:
-        p['min_distance'] = rng.choice([100.0, 500.0, 1000.0, 2500.5, float(rng.randint(50, 9000))])
+        p['min_distance'] = rng.choice([0.0, 100.0, 500.0, 1000.0, 2500.5, float(rng.randint(50, 9000))])
     if rng.random() < 0.3:
-        p['max_distance'] = rng.choice([500.0, 1000.0, 2500.5, 8000.0, float(rng.randint(200, 12000))])
+        p['max_distance'] = rng.choice([0.0, 500.0, 1000.0, 2500.5, 8000.0, float(rng.randint(200, 12000))])
     if rng.random() < 0.25:
         p['min_seat_capacity'] = rng.choice([50, 100, 150, 189, rng.randint(10, 400)])
     if rng.random() < 0.25:
-        p['max_seat_capacity'] = rng.choice([100, 150, 189, 300, rng.randint(50, 500)])
+        p['max_seat_capacity'] = rng.choice([0, 0, 100, 150, 189, 300, rng.randint(50, 500)])
     if rng.random() < 0.2:
         p['service_type'] = pick(['J', 'S', 'G', 'Q'])
     if rng.random() < 0.2:
